@@ -146,6 +146,35 @@ func ruleR02_3(c *Ctx) {
 			c.obI("R02.3", r, "records-admitting-group", !miss, "every return with applies == true has recorded the group on the per-request route (route.Authenticator = ra)", "a path returns true without recording the group")
 		}
 	}
+	// the principal carried to the next scheme / to the satisfied return is the LAST consulted scheme's, whatever it is:
+	// a nil principal of a later scheme must not be masked by an earlier scheme's principal
+	for _, ci := range calls {
+		a := ci.(*ssa.Call)
+		princ := resultOf(a, 1)
+		if princ == nil {
+			continue
+		}
+		var stale ssa.Instruction
+		for _, in := range instrs(f) {
+			phi, ok := in.(*ssa.Phi)
+			if !ok || typeStr(phi.Type()) != "interface{}" && typeStr(phi.Type()) != "any" {
+				continue
+			}
+			if okP, _ := allOrigins(phi, oNil(), oIsValue(princ)); !okP {
+				continue
+			}
+			for i := range phi.Edges {
+				if phiEdgeAfterCall(f, a, phi, i) {
+					stale = lastInstr(phi.Block().Preds[i])
+				}
+			}
+		}
+		at := ssa.Instruction(a)
+		if stale != nil {
+			at = stale
+		}
+		c.obI("R02.3", at, "principal-follows-last-scheme", stale == nil, "after a scheme was consulted the carried principal is that scheme's principal (nil included): an earlier scheme's principal must not survive a later nil one", "the previous principal is kept although a later scheme returned its own (possibly nil) principal")
+	}
 	// every scheme consults an authenticator
 	loops := sliceLoops(f, vFieldLoad(routeAuthT, "Schemes", nil))
 	c.obF("R02.3", f, "scheme-loop", len(loops) == 1, "the AND group iterates over ra.Schemes", fmt.Sprintf("%d loops over ra.Schemes", len(loops)))
@@ -675,4 +704,20 @@ func ruleR02_6(c *Ctx) {
 		c.obI("R02.6", st, "authenticators-for-requirements", ok, "the group's authenticators are the API's authenticators for the security definitions of this alternative", "value "+describe(st.Val))
 	}
 	c.min("R02.6", 7)
+}
+
+// phiEdgeAfterCall: incoming edge #i of phi carries the phi's own previous value although the block it comes from is
+// only reached after the call a succeeded (i.e. the loop goes round keeping the stale value after consulting a scheme).
+func phiEdgeAfterCall(f *ssa.Function, a *ssa.Call, phi *ssa.Phi, i int) bool {
+	pred := phi.Block().Preds[i]
+	if phi.Edges[i] != ssa.Value(phi) {
+		return false
+	}
+	// every path to the end of pred passes the call (in this iteration): entry -> pred avoiding the call impossible
+	// from the loop header
+	hdr := phi.Block()
+	if len(hdr.Instrs) == 0 {
+		return false
+	}
+	return !pathExists(f, hdr.Instrs[0], lastInstr(pred), nil, isOneOf(a)) && pathExists(f, a, lastInstr(pred), nil, nil)
 }
